@@ -143,7 +143,7 @@ package drpcmetadata
 //@ func AddPairs
 //@   props C11
 //@   requires ctx != nil
-//@   modifies *
+//@   modifies maps
 //@   loop 1 invariant [m] metadata == metadata0 && ctx != nil
 //@   site Add assert [C11.pair-from-map] haskey(metadata, arg1) && arg2 == metadata[arg1] && arg0 != nil
 //@   ensures [ctx] result != nil
